@@ -48,20 +48,25 @@ impl PackedJoinKeys {
         Self { table_stats }
     }
 
-    /// (min, max) of a plain integer column, by unqualified name, from any
+    /// (min, max) of a plain integer column, by unqualified name, over EVERY
     /// table that has it. Ambiguity across tables is safe: bounds only ever
-    /// WIDEN the proof obligation, so take the widest.
+    /// WIDEN the proof obligation, so take the widest. But a table that has the
+    /// column and cannot bound it -- written without statistics, or with
+    /// statistics missing from some column chunk (which also leaves its
+    /// null_count unknown) -- makes the proof impossible: skipping it bounded
+    /// `k` by the OTHER join side alone, K came out too small, and
+    /// `(6, 0)` and `(5, 4)` packed to the same key and matched.
     fn column_bounds(&self, name: &str) -> Option<(i64, i64)> {
         let key = name.to_lowercase();
         let mut out: Option<(i64, i64)> = None;
         for stats in self.table_stats.values() {
             if let Some(cs) = stats.column_stats.get(&key) {
-                if let (Some(lo), Some(hi)) = (cs.min_i64, cs.max_i64) {
-                    out = Some(match out {
-                        None => (lo, hi),
-                        Some((a, b)) => (a.min(lo), b.max(hi)),
-                    });
-                }
+                cs.null_count?;
+                let (lo, hi) = (cs.min_i64?, cs.max_i64?);
+                out = Some(match out {
+                    None => (lo, hi),
+                    Some((a, b)) => (a.min(lo), b.max(hi)),
+                });
             }
         }
         out
